@@ -7,6 +7,7 @@
    >= 0x80" and the model works on bytes.  (EscapeProofsUtf8.v proves that the rune-level
    formulation over Base/Utf8.v agrees with the byte-level one.) *)
 From Verif.Base Require Import Bytes.
+From Verif.Module Require Import Path.
 
 Inductive esc_err := EInvalid | EInternal.
 (* EInvalid: the argument was refused by CheckPath / checkElem / the '!' test
@@ -54,6 +55,18 @@ Definition unescape_checked (chk : str -> bool) (e : str) : esc_res :=
   | None => EErr EInvalid
   | Some s => if chk s then EOk s else EErr EInvalid
   end.
+
+(* module.go EscapePath / UnescapePath: CheckPath, then the string function *)
+Definition path_ok (p : str) : bool := ok_b (check_module_path p).
+Definition escape_path (p : str) : esc_res := escape_checked path_ok p.
+Definition unescape_path (e : str) : esc_res := unescape_checked path_ok e.
+
+(* module.go EscapeVersion: checkElem(v, filePath) != nil || strings.Contains(v, "!") is
+   refused; UnescapeVersion tests only checkElem on the result *)
+Definition elem_ok (v : str) : bool := ok_b (check_elem KFile v).
+Definition version_ok (v : str) : bool := elem_ok v && negb (contains_byte bang v).
+Definition escape_version (v : str) : esc_res := escape_checked version_ok v.
+Definition unescape_version (e : str) : esc_res := unescape_checked elem_ok e.
 
 (* strings.ToLower restricted to ASCII (the outputs of escaping are ASCII) *)
 Definition lower_byte (c : Z) : Z := if is_upper c then c + 32 else c.
